@@ -10,6 +10,13 @@ Driver for E6 / forecasting (C19).   msg := [sender, recipient|null, type]
         of the forecast depends on it)
   {"op":"forecast","grammar":G,"start":…,"histories":[[msg…]…]}
       → {"certs":…, "cases":[… as above, plus "prefix":b …]}
+  {"op":"spines","grammar":G,"start":…,"history":[msg…],"spines":[pos…]}
+      pos := ["msg"] | ["nt",pos] | ["alt",i,pos] | ["cat",i,pos] | ["rep",k,pos] | ["rep0"]
+      → {"certs":…, "spines":[{"pd":b,"walk":[msg…],"cont":b,"in_positions":b}…], "nexts":[msg…]}
+        per right spine of a partial tree of the REAL prefix parse: `pd` = pdB (is it a message-level partial derivation
+        of the history - verified checker, C19_pd_checker), `walk`/`cont` = the model of the visitor along it
+        (walkPosWith: what `PathFinder.forecast(tree)` must offer / return), `in_positions` = the model's
+        specification of the prefix parse computes it
   {"op":"slice","grammar":G,"start":"<start>","keep":[party…],"ignore_receivers":b,"real":G''|absent}
       → {"grammar": sliceG G, "cert": sliceCert (msgLevel G)  -- hypothesis of C19_slice_commutes,
          "msglevel_sliced": sliceG (msgLevel G), "real_msglevel": msgLevel G'' (when "real" is given)}
@@ -95,8 +102,9 @@ partial def eraseParties : Node → Node
 def eraseG (G : Grammar) : Grammar := { rules := G.rules.map (fun p => (p.1, eraseParties p.2)) }
 
 def caseOf (G : Grammar) (F : Nat) (start : Node) (h : List Msg) : Json :=
-  -- the partial derivations of a history nest as deep as the history is long (right recursion)
-  let Fc := (h.length + 2) * (G.rules.length + 1)
+  -- the partial derivations of a history nest as deep as the history is long (right recursion): the fuel of
+  -- `C19_code_forecast_full` / `C19_positions_exact`, `(h.length + 1) * B` with `B = F` the bound of `rankOk`
+  let Fc := (h.length + 1) * F
   let ps := positions G Fc start h
   -- open bounds are unbounded in the judged language (docs/Language.md: "an infinite upper bound"; as in E2 `Valid`
   -- and C05) and, since 07eb1fdf, in the visitor
@@ -109,6 +117,18 @@ def caseOf (G : Grammar) (F : Nat) (start : Node) (h : List Msg) : Json :=
     ("positions", Json.num (JsonNumber.fromNat ps.length)),
     ("positions_typeonly", Json.num (JsonNumber.fromNat
       (positions (eraseG G) Fc start (h.map (fun m => ⟨"", none, m.type⟩))).length))]
+
+partial def posOfJson (j : Json) : Except String Pos := do
+  let a ← j.getArr?
+  let tag ← (a[0]?.getD Json.null).getStr?
+  match tag with
+  | "msg" => return .msg
+  | "rep0" => return .rep0
+  | "nt" => return .nt (← posOfJson (a[1]?.getD Json.null))
+  | "alt" => return .alt (← (a[1]?.getD Json.null).getNat?) (← posOfJson (a[2]?.getD Json.null))
+  | "cat" => return .cat (← (a[1]?.getD Json.null).getNat?) (← posOfJson (a[2]?.getD Json.null))
+  | "rep" => return .rep (← (a[1]?.getD Json.null).getNat?) (← posOfJson (a[2]?.getD Json.null))
+  | t => throw s!"unknown position tag {t}"
 
 /-- breadth-first enumeration of the prefixes of the message-level language -/
 partial def bfs (G : Grammar) (F : Nat) (start : Node) (depth limit : Nat)
@@ -146,6 +166,25 @@ def handle (j : Json) : Except String Json := do
     return Json.mkObj [("certs", jCerts c),
       ("cases", Json.arr (hs.map (caseOf G c.fuel start)).toArray),
       ("truncated", Json.bool trunc)]
+  | "spines" =>
+    let G0 ← grammarOf (← j.getObjVal? "grammar")
+    let startName ← j.getObjValAs? String "start"
+    let G := msgLevel G0 startName
+    let start : Node := .nt startName none none
+    let c := certsOf G
+    if !(c.rankOk && c.productive && c.msgOnly) then
+      return Json.mkObj [("certs", jCerts c), ("spines", Json.arr #[]), ("nexts", Json.arr #[])]
+    let h ← (← (← j.getObjVal? "history").getArr?).toList.mapM msgOfJson
+    let ps ← (← (← j.getObjVal? "spines").getArr?).toList.mapM posOfJson
+    let Fc := (h.length + 1) * c.fuel
+    let ω := walkNewTab G Fc []
+    let model := positions G Fc start h
+    return Json.mkObj [("certs", jCerts c),
+      ("nexts", jMsgs (nexts G c.fuel start h).eraseDups),
+      ("spines", Json.arr (ps.map (fun p =>
+        let w := walkPosWith ω G start p
+        Json.mkObj [("pd", Json.bool (pdB G Fc start h p)), ("walk", jMsgs (dedupM w.1)), ("cont", Json.bool w.2),
+          ("in_positions", Json.bool (model.contains p))])).toArray)]
   | "slice" =>
     let G ← grammarOf (← j.getObjVal? "grammar")
     let startName ← j.getObjValAs? String "start"
